@@ -78,7 +78,16 @@ fn base_plans(tier: Tier) -> Vec<Plan> {
     v.push(plain(Cfg::Mem, Order::Asc, names_prim.clone()));
     v.push(plain(Cfg::Phys, Order::Asc, names_prim.clone()));
     v.push(plain(mem2(), Order::Desc, alphabet(u_names_small(), &W1, 1, false)));
+    // an altroot directory whose name is a prefix of the names below it (P = /a over a, ab, a.b)
+    v.push(plain(Cfg::alt(Cfg::Mem, "/a"), Order::Asc, names_prim.clone()));
+    // composites over multi-byte components that are not the last one (byte offsets vs char counts)
+    let mb = Universe::new("U_mb{é,é/a,éa,éa/é}", &["/é", "/é/a", "/éa", "/éa/é"]);
+    v.push(plain(Cfg::Mem, Order::Asc, alphabet(mb.clone(), &W1, 1, true)));
+    v.push(plain(Cfg::Phys, Order::Asc, alphabet(mb.clone(), &W1, 1, true)));
     if tier == Tier::Thorough {
+        v.push(plain(Cfg::alt(Cfg::Mem, ""), Order::Asc, names_prim.clone()));
+        v.push(plain(Cfg::alt(Cfg::Mem, "/é"), Order::Asc, alphabet(mb.clone(), &W1, 1, true)));
+        v.push(plain(mem2(), Order::Asc, alphabet(mb.clone(), &W1, 1, true)));
         v.push(plain(mem2(), Order::Desc, alphabet(u_names(), &W1, 1, false)));
         let names_full = alphabet(u_names(), &W1, 1, true);
         v.push(plain(Cfg::Mem, Order::Asc, alphabet(u23(), &W1, 1, true)));
@@ -124,6 +133,9 @@ fn overlay_plans(tier: Tier) -> Vec<Plan> {
     // them the marker of `a` collides with the marker directory of `a_wo` by design)
     let pfx = Universe::new("U_pfx{a,ab,a/a,a/ab}", &["/a", "/ab", "/a/a", "/a/ab"]);
     v.push(populated(mem2(), Order::Asc, alphabet(pfx.clone(), &W1, 1, false), &pfx, false));
+    // three levels deep: entries below a lower-layer subdirectory of a removed directory
+    let chain = Universe::new("U_chain3{a,a/a,a/a/a}", &["/a", "/a/a", "/a/a/a"]);
+    v.push(populated(mem2(), Order::Asc, alphabet(chain.clone(), &W1, 1, true), &chain, false));
     if tier == Tier::Thorough {
         v.push(populated(mem2(), Order::Asc, a4.clone(), &u3(), true));
         v.push(populated(mem2(), Order::Asc, alphabet(u22(), &W1, 2, true), &u4(), false));
@@ -318,7 +330,11 @@ fn spec_for(id: &str, tier: Tier) -> Spec {
                 lower_immutable: true,
                 ..Default::default()
             },
-            plans: overlay_plans(tier),
+            plans: {
+                let mut p = overlay_plans(tier);
+                p.extend(session_plans(tier).into_iter().filter(|p| p.cfg.has_overlay()));
+                p
+            },
             observers: true,
             rule: typed_rule,
             assumptions: base_assume,
